@@ -5,5 +5,6 @@ CONSTANTS
   TopoOrder <- Topo4
 INVARIANTS
   Sane
+  DefsAgree
   Emit
 CHECK_DEADLOCK FALSE
